@@ -76,6 +76,10 @@ fn py_limit(n: i128, d: i128, max_d: i128) -> (i128, i128) {
     }
 }
 
+pub fn py_limit_pub(n: i128, d: i128, max_d: i128) -> (i128, i128) {
+    py_limit(n, d, max_d)
+}
+
 /// brute force: closest fraction with denominator <= max_d; returns the set of minimisers
 fn brute_closest(n: i128, d: i128, max_d: i128) -> Vec<(i128, i128)> {
     let mut best: Option<(i128, i128)> = None; // distance as fraction (num, den)
